@@ -287,6 +287,7 @@ def analyse_job(job):
     # masks are vectors of booleans: their operations must not depend on the floating-point environment, so
     # C03 also evaluates closed forms that contain float compares with MXCSR.DAZ set
     lanecheck.DAZ_MODE[0] = (prop == "C03")
+    lanecheck.BDD_NODES[0] = 250000 if job.get("tier", "quick") == "quick" else 1500000
     insts = ops.FAMILIES[job["fam"]](vt, _C)
     if prop:
         insts = [i for i in insts if not hasattr(i, "judges") or prop in i.judges]
